@@ -708,7 +708,9 @@ pub struct PrivateSbx {
 impl PrivateSbx {
     pub fn new() -> Result<PrivateSbx, String> {
         let src = sbx_path()?;
-        let dir = std::env::temp_dir().join(format!("rv-c18-{}", std::process::id()));
+        static SEQ: std::sync::atomic::AtomicU32 = std::sync::atomic::AtomicU32::new(0);
+        let n = SEQ.fetch_add(1, std::sync::atomic::Ordering::Relaxed);
+        let dir = std::env::temp_dir().join(format!("rv-c18-{}-{}", std::process::id(), n));
         std::fs::create_dir_all(&dir).map_err(|e| format!("cannot create {}: {}", dir.display(), e))?;
         let path = dir.join("rv-sbx");
         std::fs::copy(&src, &path).map_err(|e| format!("cannot copy {} to {}: {}", src.display(), path.display(), e))?;
